@@ -367,11 +367,10 @@ namespace igris
         void erase(iterator first, iterator last)
         {
             size_t sz = last - first;
-            for (size_t i = 0; i < sz; ++i)
-            {
-                igris::destructor(first + i);
-            }
-            std::move(last, end(), first);
+            if (sz == 0)
+                return;
+            iterator newend = std::move(last, end(), first);
+            igris::array_destructor(newend, end());
             m_size -= sz;
         }
 
